@@ -69,10 +69,10 @@ type ExtChain struct {
 	TokenList      []common.Address
 	Custody        map[common.Address]*big.Int // net tokens held by the bridge contract (can be negative for origin tokens minted elsewhere)
 
-	ExecutedTxIDs  map[uint64]bool // outgoing transfer ids executed through a batch
-	ExecutedCalls  map[uint64]bool // outgoing bridge call nonces executed (success or not: tokens left fxcore custody when success)
-	Rejected       map[string]int
-	Inited         bool
+	ExecutedTxIDs map[uint64]bool // outgoing transfer ids executed through a batch
+	ExecutedCalls map[uint64]bool // outgoing bridge call nonces executed (success or not: tokens left fxcore custody when success)
+	Rejected      map[string]int
+	Inited        bool
 }
 
 func NewExtChain(name, gravityID string) *ExtChain {
